@@ -749,9 +749,17 @@ impl Expression {
                     Some(d) if ('0'..='7').contains(&d) => {
                         // parse as OCT
                         let mut num = 0i64;
+                        let mut float_num: Option<f64> = None;
                         loop {
                             let d = ps.next().unwrap() as i64 - '0' as i64;
-                            num = num * 8 + d;
+                            match float_num.as_mut() {
+                                Some(f) => *f = *f * 8. + d as f64,
+                                None => match num.checked_mul(8).and_then(|x| x.checked_add(d)) {
+                                    Some(x) => num = x,
+                                    // too large for an integer: continue as a float, like JavaScript does
+                                    None => float_num = Some(num as f64 * 8. + d as f64),
+                                },
+                            }
                             let Some(peek) = ps.peek::<0>() else { break };
                             if !is_ident_char(peek) {
                                 break;
@@ -763,6 +771,12 @@ impl Expression {
                                 return None;
                             }
                         }
+                        if let Some(value) = float_num {
+                            return Some(Box::new(Expression::LitFloat {
+                                value,
+                                location: pos..ps.position(),
+                            }));
+                        }
                         return Some(Box::new(Expression::LitInt {
                             value: num,
                             location: pos..ps.position(),
@@ -772,6 +786,7 @@ impl Expression {
                         // parse as HEX
                         ps.next(); // 'x'
                         let mut num = 0i64;
+                        let mut float_num: Option<f64> = None;
                         let peek = ps.peek::<0>()?;
                         if !('0'..='9').contains(&peek)
                             && !('a'..='z').contains(&peek)
@@ -803,7 +818,14 @@ impl Expression {
                                 'f' | 'F' => 15,
                                 _ => unreachable!(),
                             };
-                            num = num * 16 + d;
+                            match float_num.as_mut() {
+                                Some(f) => *f = *f * 16. + d as f64,
+                                None => match num.checked_mul(16).and_then(|x| x.checked_add(d)) {
+                                    Some(x) => num = x,
+                                    // too large for an integer: continue as a float, like JavaScript does
+                                    None => float_num = Some(num as f64 * 16. + d as f64),
+                                },
+                            }
                             let Some(peek) = ps.peek::<0>() else { break };
                             if !is_ident_char(peek) {
                                 break;
@@ -817,6 +839,12 @@ impl Expression {
                                 );
                                 return None;
                             }
+                        }
+                        if let Some(value) = float_num {
+                            return Some(Box::new(Expression::LitFloat {
+                                value,
+                                location: pos..ps.position(),
+                            }));
                         }
                         return Some(Box::new(Expression::LitInt {
                             value: num,
@@ -842,7 +870,8 @@ impl Expression {
             }
 
             // parse as normal DEC
-            let mut int = Some(0);
+            let mut int = Some(0i64);
+            let mut int_overflow = false;
             loop {
                 let next = ps.next().unwrap();
                 if next == 'e' {
@@ -872,18 +901,26 @@ impl Expression {
                 }
                 if next == '.' {
                     int = None;
+                    int_overflow = false;
                 } else {
                     // '0'..='9'
-                    if let Some(x) = int.as_mut() {
+                    if let Some(x) = int {
                         let d = next as i64 - '0' as i64;
-                        *x = *x * 10 + d;
+                        // a literal too large for an integer is read as a float, like JavaScript does
+                        int = x.checked_mul(10).and_then(|x| x.checked_add(d));
+                        if int.is_none() {
+                            int_overflow = true;
+                        }
                     }
                 }
                 let Some(peek) = ps.peek::<0>() else { break };
                 if !is_ident_char(peek) && peek != '.' {
                     break;
                 }
-                if ('0'..='9').contains(&peek) || (int.is_some() && peek == '.') || peek == 'e' {
+                if ('0'..='9').contains(&peek)
+                    || ((int.is_some() || int_overflow) && peek == '.')
+                    || peek == 'e'
+                {
                     // empty
                 } else {
                     ps.add_warning_at_current_position(
